@@ -137,3 +137,18 @@ PROPS["C07"] = dict(
     assumptions=COMMON_ASSUMPTIONS + ["descriptions are loaded with every type kept; Group and Die levels are subject to the documented merging and are not counted",
                                       "interleaved indexes= specifications are only checked through well-formedness and the export/import fixpoint, explicit permutations exactly"],
 )
+
+
+PROPS["C12"] = dict(
+    level_text="Exhaustive within bounds: in every state reached by the modifying alphabet up to depth 1 from every root x "
+               "configuration the topology is duplicated; dumps (including userdata pointers), XML bytes and the read-only battery "
+               "must agree; every op of the alphabet is then applied to the copy (the original's dump must not move) and to the "
+               "original (both must agree again); both destroy orders run under ASan/LSan.",
+    technique="explicit-state exploration of histories (dup as a transition) with differential and non-interference oracles on canonical dumps",
+    design_ref="DESIGN.md 5 (C12)",
+    stages=[simple("dup", "c12_dup", parts=100, deadline={"quick": 100, "thorough": 3000})],
+    explanation="States = replayed histories of length 0 and 1 over the C02 alphabet (lean argument domains in quick). The sharing monitor of the design "
+                "(original placed in an mprotect'ed arena) is part of the C17 machinery; here sharing is detected through non-interference of every op.",
+    bounds={"quick": "depth-1 states; mutation ops on root states and every 12th depth-1 state", "thorough": "mutation ops on every depth-1 state, richer argument domains"},
+    assumptions=COMMON_ASSUMPTIONS,
+)
